@@ -86,7 +86,7 @@ Section Crash.
     rec_prop o w (t, i) =
       ((if c_committed C =? p_prev P
         then [EPutValues t (commit_merge (o_order o) i (c_values C) (view C) (rb_change P)); EPutCfg t (commit_entry i P C)]
-        else []) ++ [EPutProp (t, i) (P <| p_commit := Some Done |>)], RDone).
+        else []) ++ [EPutProp (t, i) (P <| p_commit := Some Done |>)], requeue_next t P).
   Proof.
     intros [HP Ha Hb Hc HC]. unfold Proto2.rec_prop. rewrite HP, Ha, Hb, Hc, HC. reflexivity.
   Qed.
@@ -96,7 +96,7 @@ Section Crash.
     committing w t i P C -> c_committed C = p_prev P ->
     rec_prop o w (t, i) =
       ([EPutValues t (commit_merge (o_order o) i (c_values C) (view C) (rb_change P)); EPutCfg t (commit_entry i P C);
-        EPutProp (t, i) (P <| p_commit := Some Done |>)], RDone).
+        EPutProp (t, i) (P <| p_commit := Some Done |>)], requeue_next t P).
   Proof. intros Hc He. rewrite (commit_effects o w t i P C Hc), He, N.eqb_refl. reflexivity. Qed.
 
   (* crash after the entry write, before the proposal write: the committed index has moved past the predecessor,
@@ -104,7 +104,7 @@ Section Crash.
   Lemma commit_resume_after_entry (o o' : oracle) (w : world) t i P C :
     committing w t i P C -> c_committed C = p_prev P -> p_prev P <> i ->
     let w2 := step w (LRec (CtlProp (t, i)) 2 o) in
-    rec_prop o' w2 (t, i) = ([EPutProp (t, i) (P <| p_commit := Some Done |>)], RDone) /\
+    rec_prop o' w2 (t, i) = ([EPutProp (t, i) (P <| p_commit := Some Done |>)], requeue_next t P) /\
     forall k', (1 <= k')%nat ->
       step w2 (LRec (CtlProp (t, i)) k' o') = step w (LRec (CtlProp (t, i)) 3 o).
   Proof.
@@ -116,7 +116,7 @@ Section Crash.
       destruct Hc as [HP Ha Hb Hcm HC]. split; try assumption.
       - rewrite !props_apply_eff. exact HP.
       - rewrite !cfgs_apply_eff. rewrite HC, lookup_insert. cbn. rewrite lookup_insert. reflexivity. }
-    assert (Hr : rec_prop o' w2 (t, i) = ([EPutProp (t, i) (P <| p_commit := Some Done |>)], RDone)).
+    assert (Hr : rec_prop o' w2 (t, i) = ([EPutProp (t, i) (P <| p_commit := Some Done |>)], requeue_next t P)).
     { rewrite (commit_effects o' w2 t i P _ Hc2). cbn [c_committed commit_entry set].
       replace (i =? p_prev P) with false by (symmetry; apply N.eqb_neq; congruence). reflexivity. }
     split; [exact Hr|]. intros k' Hk'.
@@ -130,7 +130,7 @@ Section Crash.
     props w !! (t, i) = Some P -> p_apply P = None -> p_abort P = None -> p_commit P = Some Done ->
     fst (rec_prop o w (t, i)) = [].
   Proof.
-    intros HP Ha Hb Hc. unfold Proto2.rec_prop. rewrite HP, Ha, Hb, Hc. destruct (p_next P =? 0); reflexivity.
+    intros HP Ha Hb Hc. unfold Proto2.rec_prop. rewrite HP, Ha, Hb, Hc. reflexivity.
   Qed.
 
   (* the configuration store's Update is ONE call of the controller but TWO persisted effects (path-value map, then the
@@ -174,7 +174,7 @@ Section Crash.
     cfgs w1 !! t = Some C1 /\
     rec_prop o' w1 (t, i) =
       ([EPutValues t (commit_merge (o_order o') i v1 (view C1) (rb_change P)); EPutCfg t (commit_entry i P C1);
-        EPutProp (t, i) (P <| p_commit := Some Done |>)], RDone).
+        EPutProp (t, i) (P <| p_commit := Some Done |>)], requeue_next t P).
   Proof.
     intros Hc He v1 w1 C1.
     assert (Hc1 : committing w1 t i P C1).
@@ -221,7 +221,7 @@ Section Crash.
   (* the applied index already covers the proposal: the re-run only records it *)
   Lemma apply_covered (o : oracle) (w : world) t i (P : prop) (C : config) :
     props w !! (t, i) = Some P -> p_apply P = Some Doing -> cfgs w !! t = Some C -> i <= c_applied C ->
-    rec_prop o w (t, i) = ([EPutProp (t, i) (P <| p_apply := Some Done |> <| p_term := c_aterm C |>)], RDone).
+    rec_prop o w (t, i) = ([EPutProp (t, i) (P <| p_apply := Some Done |> <| p_term := c_aterm C |>)], requeue_next t P).
   Proof.
     intros HP Ha HC Hle. unfold Proto2.rec_prop. rewrite HP, Ha, HC.
     replace (i <=? c_applied C) with true by (symmetry; apply N.leb_le; exact Hle). reflexivity.
@@ -267,14 +267,14 @@ Section Crash.
   Lemma apply_resume_after_entry (o o' : oracle) (w : world) t i P C m req :
     sendable w t i P C m req -> dev_answer w t (c_term C) o = COk ->
     let w3 := step w (LRec (CtlProp (t, i)) 3 o) in
-    rec_prop o' w3 (t, i) = ([EPutProp (t, i) (P <| p_apply := Some Done |> <| p_term := c_aterm C |>)], RDone) /\
+    rec_prop o' w3 (t, i) = ([EPutProp (t, i) (P <| p_apply := Some Done |> <| p_term := c_aterm C |>)], requeue_next t P) /\
     (c_aterm C <= c_term C ->
      forall k', (1 <= k')%nat -> step w3 (LRec (CtlProp (t, i)) k' o') = step w (LRec (CtlProp (t, i)) 4 o)).
   Proof.
     intros Hs Ha w3.
     pose proof (ok_effects candidate candidate_rb rollback_of overlay commit_merge payload record_applied touched restore
                           doc_ok v_empty d_empty ch_empty o w t i P C m req Hs Ha) as He.
-    assert (Hr : rec_prop o' w3 (t, i) = ([EPutProp (t, i) (P <| p_apply := Some Done |> <| p_term := c_aterm C |>)], RDone)).
+    assert (Hr : rec_prop o' w3 (t, i) = ([EPutProp (t, i) (P <| p_apply := Some Done |> <| p_term := c_aterm C |>)], requeue_next t P)).
     { subst w3. cbn [Proto2.step Proto2.reconcile]. rewrite He. cbn [fst firstn fold_left].
       erewrite apply_covered; cycle 1.
       - rewrite !props_apply_eff. exact (sd_prop _ _ _ _ _ _ _ _ _ _ Hs).
@@ -299,7 +299,7 @@ Section Crash.
         then [EPutAValues t (restore (c_avalues C) (aview C));
               EPutCfg t (C <| c_applied := i |> <| c_inline := view C |> <| c_ainline := v_empty |>)]
         else []),
-       if p_next P =? 0 then RDone else RRequeueProp (t, p_next P)).
+       requeue_next t P).
   Proof. intros HP Ha HC. unfold Proto2.rec_prop, Proto2.upd_status. rewrite HP, Ha, HC. reflexivity. Qed.
 
   (* REFUSED apply, interrupted.  The failure is written on the proposal BEFORE the applied index moves:
@@ -346,7 +346,7 @@ Section Crash.
           then [EPutAValues t (restore (c_avalues Ck) (aview Ck));
                 EPutCfg t (Ck <| c_applied := i |> <| c_inline := view Ck |> <| c_ainline := v_empty |>)]
           else []),
-         if p_next P =? 0 then RDone else RRequeueProp (t, p_next P)) /\
+         requeue_next t P) /\
       (* running the re-run to its end leaves the applied index at i *)
       (exists C', cfgs (step wk (LRec (CtlProp (t, i)) 2 o')) !! t = Some C' /\ c_applied C' = i /\
                   c_committed C' = c_committed C /\ c_values C' = c_values C) /\
@@ -365,7 +365,7 @@ Section Crash.
                 then [EPutAValues t (restore (c_avalues Ck) (aview Ck));
                       EPutCfg t (Ck <| c_applied := i |> <| c_inline := view Ck |> <| c_ainline := v_empty |>)]
                 else []),
-               if p_next P =? 0 then RDone else RRequeueProp (t, p_next P))).
+               requeue_next t P)).
     { intros Ck HCk HPk. rewrite (failed_pass o' wk t i P' Ck HPk eq_refl HCk). reflexivity. }
     assert (Hfin : forall Ck, cfgs wk !! t = Some Ck -> props wk !! (t, i) = Some P' ->
               c_committed Ck = c_committed C -> c_values Ck = c_values C -> (c_applied Ck = c_applied C \/ c_applied Ck = i) ->
@@ -421,14 +421,14 @@ Section Crash.
     aborting w t i P C ->
     rec_prop o w (t, i) =
       if (c_committed C =? p_prev P) && (c_applied C =? p_prev P) then
-        (upd_status t C (C <| c_committed := i |> <| c_applied := i |>) ++ [EPutProp (t, i) (P <| p_abort := Some Done |>)], RDone)
+        (upd_status t C (C <| c_committed := i |> <| c_applied := i |>) ++ [EPutProp (t, i) (P <| p_abort := Some Done |>)], requeue_next t P)
       else if c_committed C =? p_prev P then
         (upd_status t C (C <| c_committed := i |>), RDone)
       else if (c_applied C =? p_prev P) && (i <=? c_committed C) then
-        (upd_status t C (C <| c_applied := i |>) ++ [EPutProp (t, i) (P <| p_abort := Some Done |>)], RDone)
+        (upd_status t C (C <| c_applied := i |>) ++ [EPutProp (t, i) (P <| p_abort := Some Done |>)], requeue_next t P)
       else if (i <=? c_committed C) && (i <=? c_applied C) then
-        ([EPutProp (t, i) (P <| p_abort := Some Done |>)], RDone)
-      else ([], RDone).
+        ([EPutProp (t, i) (P <| p_abort := Some Done |>)], requeue_next t P)
+      else ([], if p_prev P =? 0 then RDone else RRequeueProp (t, p_prev P)).
   Proof.
     intros [HP Ha Hb HC]. unfold Proto2.rec_prop. rewrite HP, Ha, Hb, HC. reflexivity.
   Qed.
@@ -439,7 +439,7 @@ Section Crash.
     rec_prop o w (t, i) =
       ([EPutAValues t (restore (c_avalues C) (aview C));
         EPutCfg t (C <| c_committed := i |> <| c_applied := i |> <| c_inline := view C |> <| c_ainline := v_empty |>);
-        EPutProp (t, i) (P <| p_abort := Some Done |>)], RDone).
+        EPutProp (t, i) (P <| p_abort := Some Done |>)], requeue_next t P).
   Proof. intros Ha H1 H2. rewrite (abort_effects o w t i P C Ha), H1, H2, N.eqb_refl. reflexivity. Qed.
 
   Lemma abort_committed_only (o : oracle) (w : world) t i P C :
@@ -457,7 +457,7 @@ Section Crash.
     rec_prop o w (t, i) =
       ([EPutAValues t (restore (c_avalues C) (aview C));
         EPutCfg t (C <| c_applied := i |> <| c_inline := view C |> <| c_ainline := v_empty |>);
-        EPutProp (t, i) (P <| p_abort := Some Done |>)], RDone).
+        EPutProp (t, i) (P <| p_abort := Some Done |>)], requeue_next t P).
   Proof.
     intros Ha H1 H2 H3. rewrite (abort_effects o w t i P C Ha), H2, N.eqb_refl.
     replace (c_committed C =? p_prev P) with false by (symmetry; apply N.eqb_neq; exact H1).
@@ -467,7 +467,7 @@ Section Crash.
   (* neither index equals the predecessor and the proposal is not yet passed by both: the invocation does nothing *)
   Lemma abort_idle (o : oracle) (w : world) t i P C :
     aborting w t i P C -> c_committed C <> p_prev P -> c_applied C <> p_prev P -> c_committed C < i \/ c_applied C < i ->
-    rec_prop o w (t, i) = ([], RDone).
+    rec_prop o w (t, i) = ([], if p_prev P =? 0 then RDone else RRequeueProp (t, p_prev P)).
   Proof.
     intros Ha H1 H2 H3. rewrite (abort_effects o w t i P C Ha).
     replace (c_committed C =? p_prev P) with false by (symmetry; apply N.eqb_neq; exact H1).
@@ -479,7 +479,7 @@ Section Crash.
   (* both indexes have passed the proposal: only the proposal status is left to write *)
   Lemma abort_passed (o : oracle) (w : world) t i P C :
     aborting w t i P C -> c_committed C <> p_prev P -> c_applied C <> p_prev P -> i <= c_committed C -> i <= c_applied C ->
-    rec_prop o w (t, i) = ([EPutProp (t, i) (P <| p_abort := Some Done |>)], RDone).
+    rec_prop o w (t, i) = ([EPutProp (t, i) (P <| p_abort := Some Done |>)], requeue_next t P).
   Proof.
     intros Ha H1 H2 H3 H4. rewrite (abort_effects o w t i P C Ha).
     replace (c_committed C =? p_prev P) with false by (symmetry; apply N.eqb_neq; exact H1).
@@ -518,11 +518,11 @@ Section Crash.
   Lemma abort_both_resume (o o' : oracle) (w : world) t i P C :
     aborting w t i P C -> c_committed C = p_prev P -> c_applied C = p_prev P -> p_prev P <> i ->
     let w2 := step w (LRec (CtlProp (t, i)) 2 o) in
-    rec_prop o' w2 (t, i) = ([EPutProp (t, i) (P <| p_abort := Some Done |>)], RDone) /\
+    rec_prop o' w2 (t, i) = ([EPutProp (t, i) (P <| p_abort := Some Done |>)], requeue_next t P) /\
     forall k', (1 <= k')%nat -> step w2 (LRec (CtlProp (t, i)) k' o') = step w (LRec (CtlProp (t, i)) 3 o).
   Proof.
     intros Ha H1 H2 Hne w2.
-    assert (Hr : rec_prop o' w2 (t, i) = ([EPutProp (t, i) (P <| p_abort := Some Done |>)], RDone)).
+    assert (Hr : rec_prop o' w2 (t, i) = ([EPutProp (t, i) (P <| p_abort := Some Done |>)], requeue_next t P)).
     { subst w2. cbn [Proto2.step Proto2.reconcile]. rewrite (abort_both o w t i P C Ha H1 H2). cbn [fst].
       match goal with |- context [firstn 2 (EPutAValues t ?va :: EPutCfg t ?C' :: ?rest)] =>
         pose proof (abort_world2 w t i P C C' va rest Ha) as Ha2 end.
@@ -538,11 +538,11 @@ Section Crash.
   Lemma abort_applied_resume (o o' : oracle) (w : world) t i P C :
     aborting w t i P C -> c_committed C <> p_prev P -> c_applied C = p_prev P -> i <= c_committed C -> p_prev P <> i ->
     let w2 := step w (LRec (CtlProp (t, i)) 2 o) in
-    rec_prop o' w2 (t, i) = ([EPutProp (t, i) (P <| p_abort := Some Done |>)], RDone) /\
+    rec_prop o' w2 (t, i) = ([EPutProp (t, i) (P <| p_abort := Some Done |>)], requeue_next t P) /\
     forall k', (1 <= k')%nat -> step w2 (LRec (CtlProp (t, i)) k' o') = step w (LRec (CtlProp (t, i)) 3 o).
   Proof.
     intros Ha H1 H2 H3 Hne w2.
-    assert (Hr : rec_prop o' w2 (t, i) = ([EPutProp (t, i) (P <| p_abort := Some Done |>)], RDone)).
+    assert (Hr : rec_prop o' w2 (t, i) = ([EPutProp (t, i) (P <| p_abort := Some Done |>)], requeue_next t P)).
     { subst w2. cbn [Proto2.step Proto2.reconcile]. rewrite (abort_applied_only o w t i P C Ha H1 H2 H3). cbn [fst].
       match goal with |- context [firstn 2 (EPutAValues t ?va :: EPutCfg t ?C' :: ?rest)] =>
         pose proof (abort_world2 w t i P C C' va rest Ha) as Ha2 end.
@@ -559,7 +559,7 @@ Section Crash.
   Lemma abort_committed_resume (o o' : oracle) (w : world) t i P C :
     aborting w t i P C -> c_committed C = p_prev P -> c_applied C <> p_prev P -> c_applied C < i -> p_prev P <> i ->
     let w2 := step w (LRec (CtlProp (t, i)) 2 o) in
-    rec_prop o' w2 (t, i) = ([], RDone) /\
+    rec_prop o' w2 (t, i) = ([], if p_prev P =? 0 then RDone else RRequeueProp (t, p_prev P)) /\
     exists C2, aborting w2 t i P C2 /\ c_committed C2 = i /\ c_applied C2 = c_applied C.
   Proof.
     intros Ha H1 H2 H3 Hne w2. subst w2. cbn [Proto2.step Proto2.reconcile]. rewrite (abort_committed_only o w t i P C Ha H1 H2). cbn [fst].
